@@ -366,6 +366,8 @@ def same(a, b):
         return same(a.v, b.v)
     if ta is Ref:
         return a.key == b.key and a.path == b.path
+    if ta is HeapBox:
+        return a.key == b.key
     if ta is FnItem:
         return a.path == b.path
     if ta is Closure:
